@@ -31,8 +31,12 @@
    one width interval and clearing DIRTY, clear DQF_THREAD_BOUND, _dispatch_lane_barrier_complete (:1499) /
    _dispatch_lane_class_barrier_complete (:1322) releasing the lane (enqueueing it on its root queue when the list is
    not empty), close the handle.  From then on the queue IS a serial lane: the lane component of the state is
-   literally a state of Model/SLane.v and every ordinary-lane program point is executed by SLane.gstep itself, so the
-   theorems of SLane_proofs apply to it without re-proof (Proofs/MainQ_proofs.v: SLane_proofs.Inv (lane s)).
+   literally a state of Model/SLane.v and every ordinary-lane program point is executed by SLane.gstep itself.  What
+   is transferred is SLane's INVARIANT: Proofs/MainQ_proofs.v proves SLane_proofs.Inv (lane s) after the release
+   (C02_mainq_handoff_partial) and preserves it with SLane_proofs.step_preserves.  `lane s` is not shown to be a
+   reachable state of SLane's own transition system, so SLane theorems stated over SLane-reachable states are not
+   instantiated; the consequences used here are read off the invariant: C02_mainq_lane_not_stranded (its field
+   g_nostrand), and the phase-2 halves of C02_mainq_exclusive / C02_mainq_fifo (g_running, g_order).
 
    Every dq_state transition is the body generated from the source (Gen_dqstate).  An rmw loop is one atomic step.
    The eventfd is a counter (eventfd_write adds 1, the bound thread's read resets it).  Thread events are the futex
@@ -40,8 +44,15 @@
    Scope / client contract of the model (stated in lib/props/c02_mainq.py ASSUMPTIONS): only the bound thread services
    the handle and calls the callback; dispatch_main() is called when no synchronous call onto the main queue is in
    flight and none is started afterwards (those would take the ordinary-lane waiter paths of Model/SyncWait.v);
-   work items do not submit to the main queue from inside their callout (one program point per thread); the main
-   queue is never suspended, retargeted or released; QoS arguments are existential (0..7). *)
+   the main queue is never suspended, retargeted or released; QoS arguments are existential (0..7).
+   Submission from inside a callout: a work item running ON THE BOUND THREAD (thread-bound phase) may call
+   dispatch_async_f onto the main queue: `mbegin` MAsync at MB_incall i w more runs the push and its wakeup with the
+   continuation KCall i w more and returns into the callout (the bound thread pushing onto its own queue while it
+   drains: it pokes its own handle, and the drain's exit wakeup pokes again).  NOT modelled (model scope, not an API
+   contract): a work item that submits from inside its callout on a WORKER after dispatch_main() (SLane.begin needs an
+   idle thread: one program point per thread there), synchronous calls from inside a callout, and any dispatch_sync /
+   dispatch_async_and_wait onto the main queue after dispatch_main() (MSync carries negb (mainstarted s)).  The stress
+   client exercises the first of these on the real library (scenario phase2: oracle + trace automaton). *)
 From Coq Require Import ZArith Bool List.
 From Verif Require Import Word Conc Gen_consts Gen_dqstate SLane.
 Import ListNotations.
@@ -54,7 +65,9 @@ Definition QOS_BITS := 64424509440.            (* DISPATCH_QUEUE_MAX_QOS_MASK | 
 Inductive cont :=
 | KRet                      (* dispatch_async_f returns *)
 | KWait                     (* __DISPATCH_WAIT_FOR_QUEUE__: park on the thread event *)
-| KDrain.                   (* end of _dispatch_main_queue_drain *)
+| KDrain                    (* end of _dispatch_main_queue_drain *)
+| KCall (i w : Z) (more : bool).   (* back in the callout of item i on the bound thread (MB_incall i w more): the work item
+                               itself called dispatch_async_f(dispatch_get_main_queue(), ...) *)
 
 (* main-queue specific program points; a thread that is at none of them (MIdle) is idle or runs ordinary lane code at
    the program point `pcs (lane s) t` of Model/SLane.v *)
@@ -236,6 +249,10 @@ Definition mbegin (s : mst) (t : Z) (c : mcall) : option mst :=
       | MAsync q =>
           match mpcs s t with
           | MIdle => if qos_ok q then Some (set_mpc (set_lane s (set_pc (lane s) t (PA_xchg q))) t (MP_push KRet)) else None
+          (* a work item running on the bound thread submits to the main queue from inside its callout: the push and its
+             wakeup run on top of the suspended callout and return into it *)
+          | MB_incall i w more =>
+              if qos_ok q then Some (set_mpc (set_lane s (set_pc (lane s) t (PA_xchg q))) t (MP_push (KCall i w more))) else None
           | _ => None
           end
       | MSync aaw q =>
@@ -330,7 +347,8 @@ Definition mstep (s : mst) (t : Z) : option mst :=
       | _ => None
       end
   | MW_probe2 q k => Some (set_mpc s t (match lst L with [] => MW_ret k | _ => MW_merge q k end))
-  | MW_ret k => Some (set_mpc s t (match k with KRet => MIdle | KWait => MS_dec | KDrain => MB_ret end))
+  | MW_ret k => Some (set_mpc s t (match k with KRet => MIdle | KWait => MS_dec | KDrain => MB_ret
+                                   | KCall i w more => MB_incall i w more end))
   (* ---- synchronous callers ---- *)
   | MS_aaw q => Some (set_mpc s t (MS_fast q))
   | MS_fast q =>
